@@ -402,6 +402,15 @@ def worldStep (st : State) (j : Json) : P (State × Json) := do
     let attrs ← (match fieldOpt j "attributes" with | some a => listOf str a | none => pure [] : P (List Str))
     let enc := encOf ((j.getObjValD "enc").getStr?.toOption.getD "str")
     return (st, result (fun l => jlist jrec l) (d.getFromPaths w config (← fieldStr j "s") attrs enc))
+  | "getter_all" =>
+    let attrs ← (match fieldOpt j "attributes" with | some a => listOf str a | none => pure [] : P (List Str))
+    let enc := encOf ((j.getObjValD "enc").getStr?.toOption.getD "str")
+    return (st, result (fun l => jlist jrec l) (d.getFromAll w (← fieldStr j "s") attrs enc))
+  | "get_data_all" =>
+    let x ← sidOf "sid"
+    let attrs ← (match fieldOpt j "attributes" with | some a => listOf str a | none => pure [] : P (List Str))
+    let enc := encOf ((j.getObjValD "enc").getStr?.toOption.getD "str")
+    return (st, bindE x (fun x => (d.getDataAll w x attrs enc).map jrec))
   | "find_paths" =>
     return (st, result (fun l => jlist jstr (sortStrs l)) (d.findInPaths w config (← fieldStr j "s")))
   | "find_all" =>
